@@ -626,4 +626,30 @@ theorem observer_only_code {W O D : Type} (wd : World W O) (visit : D → Ev →
     · rfl
     · exact ih _ _
 
+
+/-! ### life cycle: the attach point does not matter -/
+
+/-- a debugger that is attached after the first `k` events of a thread's visit stream sees the rest -/
+def runAttachedAt (r : Run) (t : List Ev) (k : Nat) : Run := runTrace r (t.drop k)
+
+/-- **Break points are decided at VISIT time.** The decision functions take the current debugger
+state and the visited position — no parse-time input: whatever the thread executed (and whatever
+code was loaded) before the debugger was attached, the suspensions after the attach point are those
+of the visits made from then on, for any two histories `pre₁`, `pre₂`. (For the CODE this needs every
+evaluated node to reach the debugger that is attached NOW: fact `debugger_read_at_eval_time` and the
+life-cycle cases of the correspondence.) -/
+theorem decision_at_visit_time (r : Run) (pre₁ pre₂ suffix : List Ev) :
+    runAttachedAt r (pre₁ ++ suffix) pre₁.length = runAttachedAt r (pre₂ ++ suffix) pre₂.length ∧
+    runAttachedAt r (pre₁ ++ suffix) pre₁.length = runTrace r suffix := by
+  simp [runAttachedAt]
+
+/-- **Obligation over the regenerated fact `debugger_read_at_eval_time`.** Every debugger value the
+evaluator side calls or tests is read from the runtime provider at that moment (`provider-field`) or
+is a local assigned from it in the same function (`local-from-provider`) — never a value stored in a
+runtime component when it was constructed (`stored:…`), which would make nodes parsed before the
+attach point invisible to the debugger. -/
+theorem debugger_read_at_eval_time :
+    Ecal.Gen.C15.debuggerUses.all (fun p => p.2 == "provider-field" || p.2 == "local-from-provider") = true := by
+  decide
+
 end Ecal.Props.C15
